@@ -277,3 +277,31 @@ Section Auth.
   Definition verify (chain : bytes) (chain_n : N) (t : tx) : verdict :=
     if (t_type t =? eth_type)%Z then verify_eth chain_n t else verify_native chain t.
 End Auth.
+
+(* ---------- the chain id as a function of the height ----------
+   common.ChainId(height): LocalChainConfig.ChainId from Proposal001Block on (isForked: height >= block),
+   LocalChainConfig.OriginalChainId below; common.GetChainId(height) parses that string as a base-10 integer
+   (no genesis.json override; a string big.Int.SetString rejects makes the signer's chain id 0). *)
+Record chaincfg := mkCfg { cc_chainid : bytes; cc_original : bytes; cc_fork : N }.
+
+Definition chain_id_at (c : chaincfg) (h : N) : bytes :=
+  if cc_fork c <=? h then cc_chainid c else cc_original c.
+
+Fixpoint undec (acc : N) (s : bytes) : option N :=
+  match s with
+  | [] => Some acc
+  | d :: r => if (48 <=? d) && (d <=? 57) then undec (acc * 10 + (d - 48)) r else None
+  end.
+
+Definition parse_dec (s : bytes) : N :=
+  match s with
+  | [] => 0
+  | _ => match undec 0 s with Some n => n | None => 0 end
+  end.
+
+Definition chain_n_at (c : chaincfg) (h : N) : N := parse_dec (chain_id_at c h).
+
+(* TxPool.VerifyTransaction(tx, height): a function of the configuration, the height and the transaction only *)
+Definition verify_at (sha256 keccak : bytes -> bytes) (recover : bytes -> bytes -> N -> option bytes)
+           (verify_sig : bytes -> bytes -> bytes -> bool) (c : chaincfg) (h : N) (t : tx) : verdict :=
+  verify sha256 keccak recover verify_sig (chain_id_at c h) (chain_n_at c h) t.
